@@ -2,6 +2,7 @@ package main
 
 import (
 	"fmt"
+	"strings"
 
 	"verif/harness/internal/vh"
 )
@@ -47,7 +48,7 @@ func validHello(r *vh.Rng, st int) []byte {
 // half the time one of the plain classes (>= 30 s, 1..30 s, < 1 s), else any of the odd values
 func pickWaiting(r *vh.Rng) string {
 	if r.Bool() {
-		return vh.Pick(r, []string{"60000", "30000", "29999", "15000", "1000", "999", "500"})
+		return vh.Pick(r, []string{"60000", "45000", "29999", "15000", "12000", "999", "500"})
 	}
 	return vh.Pick(r, waitingValues)
 }
@@ -121,6 +122,9 @@ func dataMsg(n int) []byte {
 var shipWords = []string{"connectionClose", "connectionHello", "messageProtocolHandshake", "messageProtocolHandshakeError", "connectionPinState", "accessMethods", "accessMethodsRequest", "data", "header", "payload"}
 
 func dataVariant(r *vh.Rng, n int) []byte {
+	if r.Chance(4) {
+		return dat(fmt.Sprintf(`{"data":[{"header":[{"protocolId":"ee1.0"}]},{"payload":{"datagram":[{"n":%d},{"pad":"%s"}]}}]}`, n, strings.Repeat("y", 20000+r.Intn(60000))))
+	}
 	switch r.Intn(11) {
 	case 8:
 		return dat(fmt.Sprintf(`{"data":[{"header":[{"protocolId":"ee1.0"}]},{"payload":{"datagram":[{"n":%d},{"%s":[{"phase":"announce"}]}]}}]}`, n, vh.Pick(r, shipWords)))
